@@ -92,6 +92,51 @@ struct Sess {
   names: BTreeSet<String>,
 }
 
+/// Hypothesis `NamesStable` (Model/Incremental.lean `EChecker`), dynamically: every heap string the retained state
+/// holds (parsed modules, checked modules, global signatures; C11's generated exhaustive walker) is still readable,
+/// and interning its text again gives the SAME handle.  Side-effect free unless the hypothesis is already broken.
+fn names_stable(st: &mut ServerState) -> String {
+  use samlang_services::verif_hooks_c11 as hk;
+  use samverif_harness::walk::Walk;
+  let mut all = Vec::new();
+  for m in hk::parsed_modules(st).values() {
+    m.walk(&mut all);
+  }
+  for m in hk::checked_modules(st).values() {
+    m.walk(&mut all);
+  }
+  hk::global_cx(st).walk(&mut all);
+  let mut seen = std::collections::HashSet::new();
+  let (mut n, mut dead, mut moved, mut example) = (0usize, 0usize, 0usize, String::new());
+  for p in all {
+    if samlang_heap::verif_hooks::pstr_repr(p).is_ok() || !seen.insert(p) {
+      continue; // inline strings are values
+    }
+    n += 1;
+    match catch_unwind(AssertUnwindSafe(|| p.as_str(&st.heap).to_string())) {
+      Err(_) => {
+        dead += 1;
+        if example.is_empty() {
+          example = format!("{p:?}");
+        }
+      }
+      Ok(text) => {
+        if st.heap.alloc_string(text.clone()) != p {
+          moved += 1;
+          if example.is_empty() {
+            example = text;
+          }
+        }
+      }
+    }
+  }
+  if dead == 0 && moved == 0 {
+    format!("#names=ok:{n}")
+  } else {
+    format!("#names=BAD:{n}:dead{dead}:moved{moved}:{}", hex(example.as_bytes()))
+  }
+}
+
 fn observe(st: &ServerState, names: &BTreeSet<String>, verbose: bool) -> String {
   let mut present: HashMap<String, ModuleReference> = HashMap::new();
   for m in st.all_modules() {
@@ -192,9 +237,12 @@ fn main() {
           Ok(st) => {
             if t[0] == "new" {
               sess.names = names;
+              let mut st = st;
               let o = observe(&st, &sess.names, verbose);
+              let ns = catch_unwind(AssertUnwindSafe(|| names_stable(&mut st)))
+                .unwrap_or_else(|_| "#names=BAD:0:panic".to_string());
               sess.state = Some(st);
-              o
+              format!("{o} {ns}")
             } else {
               let mut ns = sess.names.clone();
               ns.extend(names);
@@ -244,8 +292,11 @@ fn main() {
           _ => String::new(),
         }));
         match r {
-          Ok(_) => catch_unwind(AssertUnwindSafe(|| observe(st, names, verbose)))
-            .unwrap_or_else(|e| format!("panic:{}", hex(panic_msg(&e).as_bytes()))),
+          Ok(_) => catch_unwind(AssertUnwindSafe(|| {
+            let o = observe(st, names, verbose);
+            format!("{o} {}", names_stable(st))
+          }))
+          .unwrap_or_else(|e| format!("panic:{}", hex(panic_msg(&e).as_bytes()))),
           Err(e) => {
             // a panicked ServerState is not used any further
             sess.state = None;
